@@ -7,6 +7,12 @@ use crate::wopts::{valid_punct, WOpts};
 use vcore::fmodel::FormatModel;
 use vcore::numtext::Radices;
 
+/// once per process: route panics (see `vcore::report::install_fuzz_panic_hook`)
+pub fn init() {
+    static ONCE: std::sync::Once = std::sync::Once::new();
+    ONCE.call_once(vcore::report::install_fuzz_panic_hook);
+}
+
 pub struct Bytes<'a> {
     d: &'a [u8],
     i: usize,
@@ -17,7 +23,7 @@ impl<'a> Bytes<'a> {
         Bytes { d, i: 0 }
     }
     pub fn left(&self) -> usize {
-        self.d.len() - self.i
+        self.d.len().saturating_sub(self.i)
     }
     /// next byte; 0 once the data is exhausted (cases stay well-formed)
     pub fn u8(&mut self) -> u8 {
